@@ -7,6 +7,7 @@
 package simtime
 
 import (
+	"runtime"
 	"sync"
 	"time"
 
@@ -104,7 +105,20 @@ func Now() Time {
 func Since(t Time) Duration { return Now().Sub(t) }
 func Until(t Time) Duration { return t.Sub(Now()) }
 
-func Sleep(d Duration)                              { time.Sleep(d) }
+// Sleep sleeps on the virtual clock. While a run is being unwound a sleeper ends instead (a loop
+// that sleeps and polls forever, like main.go's resize poller, would never let the run finish).
+func Sleep(d Duration) {
+	endIfDraining()
+	time.Sleep(d)
+	endIfDraining()
+}
+
+func endIfDraining() {
+	if s := simrt.InSimGoroutine(); s != nil && s.Draining() {
+		runtime.Goexit()
+	}
+}
+
 func After(d Duration) <-chan Time                  { return time.After(d) }
 func Tick(d Duration) <-chan Time                   { return time.Tick(d) }
 func NewTimer(d Duration) *Timer                    { return time.NewTimer(d) }
